@@ -523,6 +523,9 @@ def told(ctx, rule="R-DM14-TOLD"):
                 ptr = ("call", ("attr", ("glob", "int"), "from_bytes"), (), (("bytes", sf("address")), ("byteorder", ("c", "little")), ("signed", ("c", False))))
                 want = (sf("command"), ptr, sf("pointer_type"), sf("length"), sf("object_count"), sf("key") if seeded else ("c", 0xFFFF), sf("sa"),
                         sf("access_level"), sf("seed") if seeded else ("c", 0))
+                from .common import expand_forwarders, canon_from_bytes
+                a = tuple(canon_from_bytes(expand_forwarders(ctx, f, x)) for x in a)
+                want = tuple(canon_from_bytes(x) for x in want)
                 if a == want:
                     ctx.holds(rule, inst)
                 else:
